@@ -23,6 +23,15 @@ type c15Case struct {
 	Dir    string   `json:"dir"`             // fwd | back | mixed
 	Mixed  string   `json:"mixed,omitempty"` // for mixed: string of f/b
 	Prefix string   `json:"prefix"`          // word typed before completing
+	Tail   string   `json:"tail,omitempty"`  // text after the cursor (typed, then the cursor is moved back over it)
+	// which keys invoke menu-complete / menu-complete-backward: "" = probe keys bound by the harness
+	// (C-x f / C-x b); tab = Tab / Shift-Tab; ctrl = C-n / C-p; updown, leftright = the arrow keys that the
+	// default menu keymap binds to the same two commands
+	Keys string `json:"keys,omitempty"`
+}
+
+var c15KeySets = map[string][2]string{
+	"": {"\x18f", "\x18b"}, "tab": {"\t", "\x1b[Z"}, "ctrl": {"\x0e", "\x10"}, "updown": {"\x1b[B", "\x1b[A"}, "leftright": {"\x1b[C", "\x1b[D"},
 }
 
 func c15Gen(r *rand.Rand, tier string, idx int) any {
@@ -84,6 +93,13 @@ func c15Gen(r *rand.Rand, tier string, idx int) any {
 				c.Descs = append(c.Descs, fmt.Sprintf("d%d", i/2))
 			}
 		}
+	}
+	if r.Intn(3) == 0 {
+		// the word is completed inside a line: the text after the cursor must stay where it is
+		c.Tail = pick(r, []string{" push", " --verbose", "  x y", " 界 z", " t", "tail"})
+	}
+	if r.Intn(2) == 0 {
+		c.Keys = pick(r, []string{"tab", "ctrl", "updown", "leftright"})
 	}
 	c.Dir = pick(r, []string{"fwd", "fwd", "back", "mixed"})
 	if c.Dir == "mixed" {
@@ -169,9 +185,25 @@ func c15Run(env *fw.Env, raw json.RawMessage) fw.Outcome {
 	}
 	var plan []sess.Step
 	L0 := "cmd " + c.Prefix
-	plan = append(plan, sess.Step{W: L0, Tag: "type"})
-	for _, d := range dirs {
-		plan = append(plan, sess.Step{W: "\x18" + string(d), Tag: string(d)})
+	if c.Tail == "" {
+		plan = append(plan, sess.Step{W: L0, Tag: "type"})
+	} else {
+		plan = append(plan, sess.Step{W: L0 + c.Tail + strings.Repeat("\x02", len([]rune(c.Tail))), Tag: "type"})
+	}
+	for i, d := range dirs {
+		k := c15KeySets[c.Keys][0]
+		if d == 'b' {
+			k = c15KeySets[c.Keys][1]
+		}
+		if i == 0 && c.Keys != "" {
+			// the menu is opened with the probe keys: the other keys are only bound to the two
+			// commands in the menu keymap
+			k = c15KeySets[""][0]
+			if d == 'b' {
+				k = c15KeySets[""][1]
+			}
+		}
+		plan = append(plan, sess.Step{W: k, Tag: string(d)})
 	}
 	res := s.Call(plan, steps("\x03", "\x03", "\r"))
 	kind := "plain"
@@ -183,7 +215,7 @@ func c15Run(env *fw.Env, raw json.RawMessage) fw.Outcome {
 	case len(c.Descs) > 0:
 		kind = "described"
 	}
-	ctx := fmt.Sprintf("N=%d kind=%s dir=%s W=%d H=%d prefix=%q values=%q", N, kind, c.Dir, c.W, c.H, c.Prefix, clampList(c.Values, 8))
+	ctx := fmt.Sprintf("N=%d kind=%s dir=%s W=%d H=%d prefix=%q text-after-cursor=%q keys=%q values=%q", N, kind, c.Dir, c.W, c.H, c.Prefix, c.Tail, c.Keys, clampList(c.Values, 8))
 	if !stdFailures(&o, res, ctx) {
 		o.O.Sample = map[string]any{"ctx": ctx}
 		return o.O
@@ -206,7 +238,11 @@ func c15Run(env *fw.Env, raw json.RawMessage) fw.Outcome {
 			o.Viol("text-before-the-word-changed", ctx+fmt.Sprintf(" press %d: buffer %q", i, w.Line))
 			break
 		}
-		words = append(words, strings.TrimPrefix(w.Line, pre))
+		if !strings.HasSuffix(w.Line, c.Tail) || len(w.Line) < len(pre)+len(c.Tail) {
+			o.Viol("text-after-the-cursor-changed", ctx+fmt.Sprintf(" press %d: buffer %q does not end with the text after the cursor %q", i, w.Line, c.Tail))
+			break
+		}
+		words = append(words, strings.TrimSuffix(strings.TrimPrefix(w.Line, pre), c.Tail))
 	}
 	o.O.Events += len(words)
 	if len(words) < len(dirs) {
@@ -218,6 +254,14 @@ func c15Run(env *fw.Env, raw json.RawMessage) fw.Outcome {
 		offered[v] = true
 	}
 	gridCls := fmt.Sprintf("%s|N%d|W%d|H%d", kind, bucket(N), c.W/40, c.H/12)
+	if c.Keys != "" {
+		gridCls += "|keys:" + c.Keys
+		kind += "|keys:" + c.Keys
+	}
+	if c.Tail != "" {
+		gridCls += "|inside-a-line"
+		o.Add("cycles_inside_a_line_with_text_after_the_cursor", 1)
+	}
 	o.Cover(gridCls + "|" + c.Dir)
 	for i, w := range words {
 		if !offered[w] {
@@ -226,7 +270,17 @@ func c15Run(env *fw.Env, raw json.RawMessage) fw.Outcome {
 			return o.O
 		}
 	}
-	switch c.Dir {
+	judged := c.Dir
+	if c.Keys == "updown" || c.Keys == "leftright" {
+		// The arrow keys run the same two commands, but the commands look at the key and move in
+		// its direction inside the grid (down a column, along a row): where such a walk wraps is a
+		// matter of layout (zsh's menu selection stays in the column), not of the statement, which
+		// speaks of cycling. Arrow walks are a workload for the first oracle only.
+		judged = "directional"
+	}
+	switch judged {
+	case "directional":
+		o.Add("directional_walks_with_the_arrow_keys", 1)
 	case "fwd", "back":
 		// every window of N consecutive presses is a permutation of the offered set, period N
 		for i := 0; i+N <= len(words); i++ {
